@@ -478,6 +478,14 @@ def guard_rules(repo, rep):
     domain = {'zone': (0, 60), 'east': (-2830000, 3830000), 'north': (0, 10000000)}
     evg = Evaluator(repo, opaque={'psfandgridconv', 'beta_coeff', 'alpha_coeff', 'rect_radius'})
     evg.call_function(f, {ps[0]: Rat.sym('zone'), ps[1]: Rat.sym('east'), ps[2]: Rat.sym('north')})
+    # a test made after the Newton loop sees the iterate t = tan(latitude of the MIRRORED southern point): for the whole band [-80, 84] that
+    # latitude runs over [-84, 0] (a northern point of latitude 84 is computed as -84 and negated on return)
+    for q_, c_, n_ in evg.raise_conds:
+        if isinstance(c_, Rat):
+            for k_ in c_.atoms(deep=True):
+                a_ = alg.TABLE.atoms[k_]
+                if a_.kind == 'sym' and '@L' in a_.name and a_.name.split('@')[0] in ('t', 'tn'):
+                    domain[a_.name] = (F(math.tan(math.radians(-84.0))), F(0))
     guards.guard_rule(rep, 'R-GUARD', f, evg.raise_conds, domain, 'the accepted grid domain (zones 0..60, eastings -2 830 000..3 830 000 m, northings 0..10 000 000 m)',
                       lambda nd: where(f, nd), integer=('zone',))
     guards.rejects_outside(rep, 'R-GUARD', f, evg.raise_conds, domain, {'east': 1, 'north': 1, 'zone': 1}, lambda nd: where(f, nd), 'the accepted grid domain')
@@ -576,6 +584,8 @@ def run(repo, rep):
     ctx = formula_rules(repo, rep)
     guard_rules(repo, rep)
     common.tm_division_rules(repo, rep)
+    # geographic -> grid -> geographic goes through the automatic zone of geo2grid: zone / central meridian on the lattice
+    common.zone_table_rule(repo, rep)
     if ctx is not None:
         cm_sibling_rule(repo, rep, ctx)
     tr = ThreadRule(repo, _Filter(rep, lambda key: 'psfandgridconv' not in key))
